@@ -299,3 +299,10 @@ PROPS["C11"] = {
 
 # properties not claimed at this commit, with the reason
 NOT_CLAIMED = {}
+
+
+# regenerated table facts (harness facts → Generated/Registry.lean, Generated/EvalArms.lean) tied to the model by decide
+for _pid in ("C13", "C20"):
+    PROPS[_pid].setdefault("tie_modules", []).append("LispModel.Tie.Registry")
+for _pid in ("C01", "C03", "C07", "C08"):
+    PROPS[_pid].setdefault("tie_modules", []).append("LispModel.Tie.EvalArms")
